@@ -268,6 +268,7 @@ struct Shared {
     samples: Vec<Value>,
     excluded_known: BTreeMap<String, u64>,
     counting: bool,
+    inconclusive: Vec<String>,
 }
 
 const MAX_SAMPLES: usize = 4;
@@ -454,6 +455,7 @@ impl Ctx {
                         samples: Vec::new(),
                         excluded_known: BTreeMap::new(),
                         counting: true,
+                        inconclusive: Vec::new(),
                     }));
                     let mut seed_bytes = [0u8; 32];
                     for (i, chunk) in seed_bytes.chunks_mut(8).enumerate() {
@@ -508,6 +510,10 @@ impl Ctx {
                                     }
                                     Ok(())
                                 }
+                                Err(v) if v.kind.starts_with("inconclusive") => {
+                                    sh.inconclusive.push(format!("{}: {}", v.kind, v.message));
+                                    Ok(())
+                                }
                                 Err(v) => {
                                     if !strict {
                                         if let Some(k) = known.matching(property, &sub_s, &v.kind) {
@@ -535,13 +541,11 @@ impl Ctx {
                     };
                     let failure = match result {
                         Ok(()) => None,
-                        Err(TestError::Fail(reason, value)) => {
+                        Err(TestError::Fail(_reason, value)) => {
+                            // message of the last failing execution (kept for the case that the
+                            // shrunk case does not fail again)
                             let v = last_violation.lock().unwrap().clone();
-                            // The last recorded violation belongs to the last failing
-                            // execution, which is the minimal case proptest kept, unless
-                            // the final shrink attempts passed; re-run to be exact.
-                            let _ = v;
-                            Some((reason.to_string(), value))
+                            Some((v.map(|v| format!("[{}] {}", v.kind, v.message)).unwrap_or_default(), value))
                         }
                         Err(TestError::Abort(reason)) => {
                             return (shared, None, Some(format!("aborted: {reason}")))
@@ -558,6 +562,7 @@ impl Ctx {
             ..Default::default()
         };
         let mut failures: Vec<T> = Vec::new();
+        let mut failure_msgs: Vec<String> = Vec::new();
         for h in handles {
             match h.join() {
                 Ok((shared, failure, abort)) => {
@@ -574,6 +579,7 @@ impl Ctx {
                                 samples: g.samples.clone(),
                                 excluded_known: g.excluded_known.clone(),
                                 counting: g.counting,
+                                inconclusive: g.inconclusive.clone(),
                             }
                         });
                     rep.evaluations += sh.evaluations;
@@ -591,8 +597,12 @@ impl Ctx {
                     for (k, v) in sh.excluded_known {
                         *rep.excluded_known.entry(k).or_default() += v;
                     }
-                    if let Some((_reason, value)) = failure {
+                    for i in sh.inconclusive.into_iter().take(3) {
+                        self.inconclusive.push(format!("{sub}: {i}"));
+                    }
+                    if let Some((reason, value)) = failure {
                         failures.push(value);
+                        failure_msgs.push(reason);
                     }
                     if let Some(a) = abort {
                         self.inconclusive.push(format!("{sub}: {a}"));
@@ -629,9 +639,11 @@ impl Ctx {
                 Err(_) => {}
                 Ok(_) => {
                     // did not reproduce on re-run: not deterministic => inconclusive
+                    let js = serde_json::to_string(&case).unwrap_or_default();
                     self.inconclusive.push(format!(
-                        "{sub}: shrunk failing case did not fail again when re-run: {}",
-                        serde_json::to_string(&case).unwrap_or_default()
+                        "{sub}: shrunk failing case did not fail again when re-run; last failure seen: {}; case: {}",
+                        failure_msgs.first().map(|s| &s[..s.len().min(1500)]).unwrap_or(""),
+                        &js[..js.len().min(3000)]
                     ));
                 }
             }
@@ -721,6 +733,11 @@ impl Ctx {
                     }
                     for l in o.labels {
                         *rep.labels.entry(l).or_default() += 1;
+                    }
+                }
+                Err(v) if v.kind.starts_with("inconclusive") => {
+                    if self.inconclusive.len() < 5 {
+                        self.inconclusive.push(format!("{sub}: {}: {}", v.kind, v.message));
                     }
                 }
                 Err(v) => {
